@@ -190,9 +190,13 @@ def merge(pid, chk, tier, seed, results, scratch, t_start, build_s, shards):
     exhaustive = True
     bounds = {}
     rule = ""
+    infra_msgs = []
     for r in results:
         if r.get("infra"):
-            infra("%s: %s" % (pid, r["infra"]))
+            # a shard could not decide: keep going, a violation found elsewhere is still a violation
+            if r["infra"] not in infra_msgs:
+                infra_msgs.append(r["infra"])
+            exhaustive = False
         ev["evaluations"] += r.get("evaluations", 0)
         ev["states"] += r.get("states", 0)
         ev["transitions"] += r.get("transitions", 0)
@@ -292,7 +296,13 @@ def merge(pid, chk, tier, seed, results, scratch, t_start, build_s, shards):
     for l in lines:
         print(l)
     sys.stdout.flush()
-    return 1 if new else 0
+    if new:
+        for m in infra_msgs:
+            print("note: INFRA in another shard/part: %s: %s" % (pid, m))
+        return 1
+    if infra_msgs:
+        infra("%s: %s" % (pid, "; ".join(infra_msgs)))
+    return 0
 
 
 def replay(path):
